@@ -1437,6 +1437,10 @@ val return_text_ok : cell list list -> cell list list -> bool
 
 val holds_C16_return_text : vt -> func -> vt -> bool
 
+val switches : dec_mode -> bool
+
+val holds_C16_return_list : vt -> func -> vt -> bool
+
 val kf1_restorable : term -> bool
 
 val kf1_C11_narrow : term -> bool
